@@ -24,7 +24,8 @@ MANIFEST = {
             "ECDSA unforgeability, stated as hypotheses of the theorem and observed on every generated case.",
     "technique": "Lean 4 proof (unique decoding / congruence over the sighash model) + differential histories on the real objects + reference oracle",
 }
-RULE = ("ops c06_hist (signed transaction + mutation sequence; verdict vector after every step), c06_guards (missing_unspent / missing_unspents / the "
+RULE = ("ops c06_from_db / c06_set_unspents / c06_parse_unspents (ways the unspents get populated: databases lacking the tx, with too few outputs, "
+        "under the wrong hash; None entries, short lists; the include_unspents extension; scriptSig empty / OP_1 / genuine), c06_hist (signed transaction + mutation sequence; verdict vector after every step), c06_guards (missing_unspent / missing_unspents / the "
         "is_solution_ok guard on unspents patterns), c06_cache (one checksigs execution with repeated hash types); distinct = distinct op line; "
         "trivial = histories without any mutation")
 ASSUMPTIONS = ["SHA-256 collision resistance and ECDSA unforgeability (explicit hypotheses of C06_tamper_fails_partial; no generated tampering produced a valid signature)",
@@ -193,6 +194,30 @@ def impl(op: str) -> str:
             finally:
                 type(tx).check_solution = orig
             return "ok %s %d %s" % (mu, 1 if tx.missing_unspents() else 0, "".join(guard))
+        if k == "c06_from_db":
+            coin, f, ign, db = a[1], parse_fields(a[2]), a[3] == "1", parse_db(a[1], a[4])
+            tx = build(coin, f, [])
+            try:
+                tx.unspents_from_db(db, ignore_missing=ign)
+                head = "ok " + txlib.show_unspents(tx.unspents)
+            except Exception as e:  # noqa: BLE001
+                head = "err " + type(e).__name__
+            return head + " " + guards_and_verdicts(tx)
+        if k == "c06_set_unspents":
+            coin, f, us = a[1], parse_fields(a[2]), parse_us(a[3])
+            tx = build(coin, f, [])
+            T = TX(coin)
+            try:
+                tx.set_unspents([None if u is None else T.TxOut(u[0], u[1]) for u in us])
+                head = "ok"
+            except Exception as e:  # noqa: BLE001
+                head = "err " + type(e).__name__
+            return head + " " + guards_and_verdicts(tx)
+        if k == "c06_parse_unspents":
+            coin, f, us = a[1], parse_fields(a[2]), parse_us(a[3])
+            tx = build(coin, f, us)
+            tx2 = TX(coin).from_bin(tx.as_bin(include_unspents=True))
+            return "ok " + txlib.show_unspents(tx2.unspents) + " " + guards_and_verdicts(tx2)
         if k == "c06_cache":
             salt = int(a[1])
             hts = [] if a[2] == "~" else [int(x) for x in a[2].split(",")]
@@ -231,6 +256,93 @@ def impl(op: str) -> str:
     except Exception as e:  # noqa: BLE001
         return E(e)
     return "bad-op"
+
+
+class Src:
+    """a transaction as a database hands it out: the hash it reports and its outputs"""
+
+    def __init__(self, h, txs_out):
+        self._h = h
+        self.txs_out = txs_out
+
+    def hash(self):
+        return self._h
+
+
+def parse_db_spec(s):
+    """[(key, reported hash, [(value, script)])]"""
+    res = []
+    if s == "~":
+        return res
+    for e in s.split("|"):
+        k, h, outs = e.split("=")
+        o = [] if outs == "~" else [(int(x.split(":")[0]), parse_bytes(x.split(":")[1])) for x in outs.split(",")]
+        res.append((parse_bytes(k), parse_bytes(h), o))
+    return res
+
+
+def parse_db(coin, s):
+    T = TX(coin)
+    db = {}
+    for k, h, outs in parse_db_spec(s):
+        db.setdefault(k, Src(h, [T.TxOut(v, sc) for v, sc in outs]))
+    return db
+
+
+def show_db(entries):
+    return "|".join("%s=%s=%s" % (hx(k), hx(h), ",".join("%d:%s" % (v, hx(sc)) for v, sc in outs) or "~") for k, h, outs in entries) or "~"
+
+
+def guards_and_verdicts(tx):
+    """which is_solution_ok(i) return False without running the checker, and the verdict vector ('?' where the checker ran)"""
+    n = len(tx.txs_in)
+    guard, called = [], []
+    orig = type(tx).check_solution
+
+    def rec(self, idx, *args, **kw):
+        called.append(idx)
+        raise tx.SolutionChecker.ScriptError("stop")
+    type(tx).check_solution = rec
+    try:
+        for i in range(n):
+            called.clear()
+            try:
+                r = tx.is_solution_ok(i)
+            except Exception:  # noqa: BLE001
+                r = None
+            guard.append("1" if (r is False and not called) else "0")
+    finally:
+        type(tx).check_solution = orig
+    verd = []
+    for i in range(n):
+        if guard[i] == "0":
+            verd.append("?")
+            continue
+        try:
+            verd.append("1" if tx.is_solution_ok(i) else "0")
+        except Exception:  # noqa: BLE001
+            verd.append("E")
+    return "".join(guard) + " " + "".join(verd)
+
+
+def never_valid(tx, missing):
+    """the property on the implementation: the inputs in `missing` (no spent output in the source data) are not reported valid"""
+    for i in missing:
+        try:
+            r = tx.is_solution_ok(i)
+        except Exception:  # noqa: BLE001
+            r = False
+        if r:
+            return "input %d is reported valid by is_solution_ok although its spent output does not exist in the source data (scriptSig %s)" % (
+                i, hx(tx.txs_in[i].script))
+    if not tx.is_coinbase():
+        try:
+            bad = tx.bad_solution_count()
+        except Exception:  # noqa: BLE001
+            return None
+        if bad < len(missing):
+            return "bad_solution_count() = %d although %d inputs have no spent output in the source data" % (bad, len(missing))
+    return None
 
 
 # ---------------------------------------------------------------- oracle
@@ -306,6 +418,42 @@ def oracle(op: str, out: str):
                             return "input %d fails validation after a change outside what its hash type commits to (step %d: %s)" % (j, n, cmd)
                         return "validating input %d raised instead of returning a verdict (step %d: %s)" % (j, n, cmd)
                 return "bad_solution_count disagrees with the per-input verdicts (step %d: got %s, expected %s)" % (n, got[n], want)
+    if k == "c06_from_db":
+        coin, f, ign, spec = a[1], parse_fields(a[2]), a[3] == "1", parse_db_spec(a[4])
+        first = {}
+        for key, h, outs in spec:
+            first.setdefault(key, (h, outs))
+        missing = []
+        for i, (ph, pi, _s, _q, _w) in enumerate(f[2]):
+            e = first.get(ph)
+            if not (e is not None and e[0] == ph and 0 <= pi < len(e[1])):
+                missing.append(i)
+        tx = build(coin, f, [])
+        try:
+            tx.unspents_from_db(parse_db(coin, a[4]), ignore_missing=ign)
+        except Exception:  # noqa: BLE001
+            pass
+        return never_valid(tx, missing)
+    if k == "c06_set_unspents":
+        coin, f, us = a[1], parse_fields(a[2]), parse_us(a[3])
+        tx = build(coin, f, [])
+        T = TX(coin)
+        try:
+            tx.set_unspents([None if u is None else T.TxOut(u[0], u[1]) for u in us])
+            missing = [i for i in range(len(f[2])) if i >= len(us) or us[i] is None]
+        except Exception:  # noqa: BLE001
+            missing = list(range(len(f[2])))
+        return never_valid(tx, missing)
+    if k == "c06_parse_unspents":
+        coin, f, us = a[1], parse_fields(a[2]), parse_us(a[3])
+        tx = build(coin, f, us)
+        try:
+            tx2 = TX(coin).from_bin(tx.as_bin(include_unspents=True))
+        except Exception as e:  # noqa: BLE001
+            return None
+        whole = len(us) == len(f[2]) and all(u is not None for u in us)
+        missing = [i for i in range(len(f[2])) if not whole or us[i] is None]
+        return never_valid(tx2, missing)
     if k == "c06_guards" and out.startswith("ok"):
         coin, f, us = a[1], parse_fields(a[2]), parse_us(a[3])
         mu, mus, guard = out[3:].split(" ")
@@ -489,6 +637,53 @@ def gen(ctx, emit):
         cb = (1, 0, [(txlib.ZERO32, txlib.NULL_INDEX, b"\x51\x51", 0, [])], [(5, b"\x51")])
         for us in ([], [u], [None]):
             emit("c06_guards %s %s %s" % (coin, show_fields(cb), show_us(us)))
+    # ---- how unspents get populated: databases that lack the tx, hold it with too few outputs, or under the wrong hash;
+    # set_unspents with None / short lists; the include_unspents extension; scriptSig empty, OP_1, or a genuine sig+pubkey
+    for coin in COINS:
+        tx = S.sign_tx(coin, ["p2pkh", "p2pk", "p2pkh_u"], 1, n_out=2)
+        f0 = txlib.fields_of(tx)
+        us0 = S.us_of(tx)
+        anyone = (777, b"\x51")
+        for sol_mode in ("genuine", "empty", "op1"):
+            ins = [(h, i, {"genuine": sc, "empty": b"", "op1": b"\x51"}[sol_mode], q, w) for h, i, sc, q, w in f0[2]]
+            f = (f0[0], f0[1], ins, f0[3])
+            t = show_fields(f)
+
+            def entry(j, n_outs, wrong_hash=False, at=None):
+                """source tx of input j with n_outs outputs; the real spent output sits at its index when that exists"""
+                h, i = ins[j][0], ins[j][1]
+                outs = [anyone] * n_outs
+                if i < n_outs:
+                    outs[i] = us0[j]
+                return (h, bytes(32) if wrong_hash else h, outs)
+            full = [entry(j, ins[j][1] + 2) for j in range(3)]
+            variants = [full, full[:2], full[1:], [], [full[0], entry(1, ins[1][1]), full[2]],            # index == len
+                        [full[0], full[1], entry(2, 1)], [entry(0, 0), full[1], full[2]],                    # index > len, no outputs
+                        [full[0], entry(1, 5, wrong_hash=True), full[2]], [entry(0, 3, wrong_hash=True)] + full[1:]]
+            for db in variants:
+                for ign in "01":
+                    emit("c06_from_db %s %s %s %s" % (coin, t, ign, show_db(db)))
+            # indices far beyond any source transaction
+            for big in (0xFFFFFFFE, 0xFFFFFFFF, 2, 3):
+                ins2 = [(ins[0][0], big, ins[0][2], ins[0][3], ins[0][4])] + ins[1:]
+                for ign in "01":
+                    emit("c06_from_db %s %s %s %s" % (coin, show_fields((f[0], f[1], ins2, f[3])), ign, show_db(full)))
+            for us in (us0, us0[:2], us0[:1], [], us0 + [anyone], [None] + us0[1:], [us0[0], None, us0[2]], [None, None, None], [anyone] * 3,
+                       [(0, b"")] + us0[1:], [(0, b"\x51")] * 3):
+                emit("c06_set_unspents %s %s %s" % (coin, t, show_us(us)))
+                emit("c06_parse_unspents %s %s %s" % (coin, t, show_us(us)))
+        for _ in range(ctx.n(20, 600)):
+            ins = []
+            db = []
+            for j in range(rng.randint(1, 4)):
+                h = bytes([0x30 + j]) * 32
+                n_outs = rng.randint(0, 3)
+                idx = rng.choice([0, 1, n_outs, max(0, n_outs - 1), n_outs + 1, 0xFFFFFFFE])
+                ins.append((h, idx, rng.choice([b"", b"\x51", f0[2][0][2]]), 0xFFFFFFFF, []))
+                mode = rng.randrange(5)
+                if mode != 0:
+                    db.append((h, bytes([7]) * 32 if mode == 1 else h, [rng.choice([anyone, us0[0], (5, b"")]) for _o in range(n_outs)]))
+            emit("c06_from_db %s %s %s %s" % (coin, show_fields((1, 0, ins, [(5, b"\x51")])), rng.choice("01"), show_db(db)))
     # ---- the sighash cache of one checksigs execution
     for hts in ([], [1], [1, 1], [1, 2], [2, 1, 2], [1, 2, 3, 1, 2, 3], [0x81, 1, 0x81], [3, 3, 3, 2], [0x41, 0x42, 0x41, 0xC1]):
         emit("c06_cache %d %s" % (1 + len(hts), show_list(hts)))
